@@ -76,7 +76,8 @@ theorem limits_constant (tbl : List IfaceRow) (b : Bus) (ev : Ev) : (step tbl b 
       clearRules := fun _ _ => rfl
       removeConn := fun _ _ => rfl
       connect := fun _ _ _ _ _ _ => rfl
-      setFull := fun _ _ => rfl }
+      setFull := fun _ _ => rfl
+      setPolicy := fun _ _ => rfl }
   exact lv_step L tbl b ev
 
 /-! ### the request that would exceed a limit is refused and changes nothing -/
